@@ -370,6 +370,11 @@ func checkC17(p *Prog, r *Report) {
 						r.OKTrivial(key, "Must*-wrapper: obligation moves to each call site", site, "wrapper")
 						continue
 					}
+					// a guard that contradicts a library postcondition (reviewed table) can never fire
+					if why := contradictsLibraryFact(fa.At(b)); why != "" {
+						r.OK(key, "no explicit panic is reachable from message, query, key-file or block entry points", site, "unreachable: "+why)
+						continue
+					}
 					// init-time / constructor panics are outside the entry points; anything else is a finding
 					r.Fail(key, "no explicit panic is reachable from message, query, key-file or block entry points", site,
 						fmt.Sprintf("explicit panic in %s, reachable via %s", fname, reach.Chain(fn)))
@@ -635,6 +640,22 @@ func checkC17(p *Prog, r *Report) {
 								})
 								if ok2 {
 									wit = "loop bound " + clip(wit, 80)
+								}
+							}
+							if !ok2 && it.Op == "call" && (strings.HasPrefix(it.Name, "slices.IndexFunc[") || strings.HasPrefix(it.Name, "slices.Index[")) && len(it.Args) == 2 && it.Args[0].Eq(xt) {
+								// library contract: the result is -1 or a valid index of the first argument
+								isConst := func(t *Term, v string) bool { return t.Op == "const" && t.Name == v }
+								wit, ok2 = fa.DominatingFact(in, false, func(t *Term) bool {
+									return t.Op == "lt" && t.Args[0].Eq(it) && isConst(t.Args[1], "0") ||
+										t.Op == "eq" && (t.Args[0].Eq(it) && isConst(t.Args[1], "-1") || t.Args[1].Eq(it) && isConst(t.Args[0], "-1"))
+								})
+								if !ok2 {
+									wit, ok2 = fa.DominatingFact(in, true, func(t *Term) bool {
+										return t.Op == "lt" && t.Args[1].Eq(it) && isConst(t.Args[0], "-1")
+									})
+								}
+								if ok2 {
+									wit = "slices.Index* result tested non-negative: " + clip(wit, 80)
 								}
 							}
 						}
@@ -1105,7 +1126,7 @@ func sdkEmptyIsLenZero(p *Prog, name string) bool {
 	// name is "(sdk/types.T).M"
 	if i, j := strings.Index(name, "types."), strings.Index(name, ")."); i > 0 && j > i {
 		if pk := p.All["github.com/cosmos/cosmos-sdk/types"]; pk != nil {
-			if tn, ok := pk.Types.Scope().Lookup(name[i+len("types."):j]).(*types.TypeName); ok {
+			if tn, ok := pk.Types.Scope().Lookup(name[i+len("types.") : j]).(*types.TypeName); ok {
 				if sel := p.SSA.MethodSets.MethodSet(tn.Type()).Lookup(pk.Types, name[j+2:]); sel != nil {
 					fn = p.SSA.MethodValue(sel)
 				}
@@ -1282,4 +1303,42 @@ func boundAtCallSites(p *Prog, fn *ssa.Function, prm *Term, scope []*ssa.Functio
 		}
 	}
 	return n > 0, fmt.Sprintf("precondition discharged at %d call site(s): %s", n, wit)
+}
+
+// nonEmptyProducers: library calls whose []byte result is never empty (reviewed): a length-prefixed encoding always carries at
+// least the length byte.
+var nonEmptyProducers = []string{"MustMarshalLengthPrefixed", "MarshalLengthPrefixed"}
+
+// contradictsLibraryFact: the condition F requires len(X) == 0 (or len(X) < 1) for an X that a reviewed library call never
+// returns empty. Returns the reason, or "".
+func contradictsLibraryFact(F *Formula) string {
+	for _, a := range F.Atoms() {
+		t := a.Term
+		if t == nil || len(t.Args) != 2 {
+			continue
+		}
+		var ln *Term
+		switch {
+		case t.Op == "eq" && t.Args[0].Op == "const" && t.Args[0].Name == "0":
+			ln = t.Args[1]
+		case t.Op == "eq" && t.Args[1].Op == "const" && t.Args[1].Name == "0":
+			ln = t.Args[0]
+		case t.Op == "lt" && t.Args[1].Op == "const" && t.Args[1].Name == "1":
+			ln = t.Args[0]
+		}
+		if ln == nil || !ln.IsCall("builtin:len") || len(ln.Args) != 1 || ln.Args[0].Op != "call" {
+			continue
+		}
+		prod := ""
+		for _, n := range nonEmptyProducers {
+			if strings.HasSuffix(ln.Args[0].Name, "."+n) {
+				prod = n
+			}
+		}
+		if prod == "" || !Entails(F, a) {
+			continue
+		}
+		return "the path requires " + clip(a.String(), 120) + ", but " + prod + " never returns an empty slice (the length prefix alone is one byte)"
+	}
+	return ""
 }
